@@ -29,6 +29,9 @@ type c16Case struct {
 	Enums []c16Enum `json:"enums"`
 	Cfg   ProgCfg   `json:"cfg"`
 	Twin  string    `json:"twin,omitempty"`
+	// SplitOps: every enum is reached from an operation of its own (Q0, Q1, …) instead of all from one: a table
+	// of constant names that is kept per operation misses clashes between enums of different operations
+	SplitOps bool `json:"splitOps,omitempty"`
 }
 
 var c16Words = []string{"a", "b", "ab", "A", "B", "AB", "Ab", "aB", "x1", "X1", "1", "2a", "foo", "FOO", "Foo", "bar", "BAR", "fooBar", "FooBar", "FOO_BAR", "foo_bar"}
@@ -165,6 +168,7 @@ func c16Gen(r *proto.Rng) c16Case {
 				e1, e2 = e2, e1
 			}
 			cs.Enums = []c16Enum{e1, e2}
+			cs.SplitOps = r.Chance(1, 2)
 			return cs
 		}
 		tn := []string{"A", "AB", "A_B", "Foo", "Foo_Bar", "FooBar"}
@@ -206,6 +210,7 @@ func c16Gen(r *proto.Rng) c16Case {
 		}
 		cs.Enums = append(cs.Enums, e2)
 	}
+	cs.SplitOps = len(cs.Enums) > 1 && r.Chance(1, 2)
 	return cs
 }
 
@@ -235,6 +240,17 @@ func c16Program(cs c16Case) *Program {
 			fmt.Fprintf(&sch, "  %s\n", v)
 		}
 		sch.WriteString("}\n")
+	}
+	if cs.SplitOps && len(cs.Enums) > 1 {
+		var ops strings.Builder
+		for i, e := range cs.Enums {
+			if e.Typename == "" {
+				fmt.Fprintf(&ops, "query Q%d($a%d: %s) {\n  f%d(arg: $a%d)\n  l%d\n}\n", i, i, e.Name, i, i, i)
+			} else {
+				fmt.Fprintf(&ops, "query Q%d {\n  # @genqlient(typename: \"%s\")\n  f%d\n}\n", i, e.Typename, i)
+			}
+		}
+		return &Program{Schema: map[string]string{"schema.graphql": sch.String()}, Ops: map[string]string{"q.graphql": ops.String()}, Cfg: cs.Cfg}
 	}
 	qs := q.String()
 	if first {
